@@ -109,6 +109,26 @@ CLAIMS = {
        "by mismatches / unreadable files.",
   note="NOT covered: the exit code of `test`'s structured / JUnit reporter and --dir mode beyond get_exit_code, files/stdin/clap, main(). The MIR checks fix verbose = print_json = false and no input parameters.",
   design="4/C06"),
+ "C07": dict(
+  text="Wiring of the verdict through every rendering path, decided on MIR (callees modelled, value identities tracked; z3+cvc5): "
+       "evaluate_against_data_input with verbose / print_json / the summary selection / the output format ALL symbolic (<=2 documents): "
+       "whatever the flags, each document is evaluated once and its reporter receives exactly that evaluation's status, the record tree "
+       "of that evaluation's scope and the requested format; --verbose / --print-json render that same tree; the returned status is FAIL "
+       "iff some evaluation was FAIL. The console reporter chain (SummaryTable -> CfnAware -> TfAware -> GenericSummary, and the two "
+       "delegating closures): every link builds its report with simplified_json_from_root from the record tree it received (the same "
+       "builder as the structured reporter, decided under C09) and serialises exactly that report; delegation passes writer, status, "
+       "record tree, names and format unchanged; the summary table files every RuleCheck child under the header of its own status with "
+       "its own name and shows the status it received. validate_and_return_json (library API / Lambda / FFI): parsed rules and converted "
+       "document are evaluated once in a scope built from exactly them, the JSON report comes from that evaluation's status and record "
+       "tree through the generic reporter, verbose returns that same tree. Plus the obligations shared with C06 / C12: the --structured "
+       "reporter's pairs and exit code, the JUnit case marks by status, the step invariant of Validate::execute for both the file and "
+       "the --payload call site.",
+  note="This decides that all renderings and entry points draw on ONE evaluation result and ONE report builder; it does NOT decide the "
+       "well-formedness of the emitted JSON / YAML / XML / SARIF text (serde_json, serde_yaml, quick-xml are outside the encoding), the "
+       "SARIF result list, stdin handling, clap. Known discrepancy on this tree (recorded as the C09 known finding, not re-raised here): "
+       "for a rule NAME defined several times the console summary table drops SKIP when another definition passed or failed, the "
+       "structured report lists the name under both. No Kani harness serves this property.",
+  design="0b/C07"),
  "C08": dict(
   text="Panic-freedom (Kani's panic/overflow/bounds/unwrap checks) of every harnessed kernel for all inputs in its bound, in particular "
        "substring byte slicing on multi-byte strings, the 100-byte preview slice of build_data_file on malformed non-ASCII data, "
@@ -248,10 +268,9 @@ CLAIMS = {
   design="4/C18"),
 }
 
-MIR_ONLY = {"C05", "C11", "C12", "C15"}
+MIR_ONLY = {"C05", "C07", "C11", "C12", "C15"}
 
 NA = {
- "C07": "whole-program cross-format property over serde_json/serde_yaml/quick-xml/clap/file I/O; no bounded kernel the solver can be pointed at",
  "C14": "nom/LocatedSpan combinators do not terminate under CBMC even on a 2-byte symbolic input (18 min, 7 GB); the parser is outside this technique on this image",
  "C19": "serde template parsing + string building + the full parser and evaluator round trip; whole-program",
 }
@@ -292,7 +311,7 @@ def main():
         "engines": [
             {"name": "kani-cbmc", "path": "/verif/check", "serves_properties": sorted(set(CLAIMS) - MIR_ONLY),
              "kind_free_text": "Kani 0.68 (rustc MIR -> goto-program) + CBMC 6.11 (symbolic execution, bit-blasting, CaDiCaL) over the real cfn-guard crate; counterexamples replayed natively with cargo kani playback"},
-            {"name": "mir-smt", "path": "/verif/lib/mirsmt.py", "serves_properties": ["C01", "C02", "C03", "C04", "C05", "C06", "C08", "C09", "C10", "C11", "C12", "C13", "C15", "C16", "C17", "C18"],
+            {"name": "mir-smt", "path": "/verif/lib/mirsmt.py", "serves_properties": ["C01", "C02", "C03", "C04", "C05", "C06", "C07", "C08", "C09", "C10", "C11", "C12", "C13", "C15", "C16", "C17", "C18"],
              "kind_free_text": "nightly -Zunpretty=mir dump of the current tree; lib/mirsmt.py (loop-free kernels, havoc-mode overflow/negate site search), lib/mirexec.py (bounded path enumeration with call models, loop unrolling, value identities) and lib/miragg.py / mirblocks.py / mirflow.py / mirpaths.py / mirload.py / mirquery.py / mirorder.py (aggregation, memoisation, index, negation-flow, block, operator-layer, wiring and exit-code obligations) emit SMT-LIB2 decided by z3 4.8.12 and cvc5 1.0 (must agree); candidates are replayed through the real CLI built from the scratch copy"},
         ],
         "checks": checks,
